@@ -318,6 +318,19 @@ func (l *Ledger) poolGet(g *G, v Value) {
 	}
 }
 
+// releasedByApp: is the Free that leads to this Put called by application
+// (harness) code rather than by the library?
+func releasedByApp(g *G) bool {
+	for fr := g.fr; fr != nil; fr = fr.caller {
+		name := fr.fn.String()
+		if strings.HasPrefix(name, "(*go.nanomsg.org/mangos/v3.Message).") || strings.HasPrefix(name, "(*sync.Pool).") {
+			continue
+		}
+		return !fr.info.isMangos
+	}
+	return true
+}
+
 func (l *Ledger) poolPut(g *G, v Value, pos token.Pos) {
 	p := msgPtr(v)
 	if p == nil {
@@ -330,7 +343,17 @@ func (l *Ledger) poolPut(g *G, v Value, pos token.Pos) {
 		return
 	}
 	if mi.owned {
-		vm.ex.recordViolation(vm, g, "ledger/release-of-app-owned", fmt.Sprintf("library released message #%d that the application owns, at %s", mi.id, vm.posStr(pos)), vm.posStr(pos), nil)
+		if releasedByApp(g) {
+			// the application gives its message back: ownership ends
+			mi.owned = false
+			for c, o := range l.owned {
+				if o == mi {
+					delete(l.owned, c)
+				}
+			}
+		} else {
+			vm.ex.recordViolation(vm, g, "ledger/release-of-app-owned", fmt.Sprintf("library released message #%d that the application owns (%s)", mi.id, g.curFn()), vm.posStr(pos), nil)
+		}
 	}
 	mi.released = true
 	mi.relPos = pos
